@@ -521,6 +521,12 @@ func (gFamily) newSSet(kind int, keys []int, state []int, elems [][]int) sset {
 		}
 		return gSSet{s}
 	}
+	if len(keys) == 0 {
+		// an empty stream set may also be built from a map that was never allocated (StreamSetFromMap copies
+		// its argument; SetFromMap does not - it wraps the caller's map, so a nil map stays the caller's
+		// business there and is not generated)
+		return gSSet{fpgo.StreamSetFromMap[int, int](nil)}
+	}
 	m := map[int]*fpgo.StreamDef[int]{}
 	for i, k := range keys {
 		switch state[i] {
@@ -795,6 +801,9 @@ func (iFamily) newSSet(kind int, keys []int, state []int, elems [][]int) sset {
 		}
 		return iSSet{s}
 	}
+	if len(keys) == 0 {
+		return iSSet{fpgo.StreamSetForInterfaceFromMap(nil)}
+	}
 	m := map[interface{}]*fpgo.StreamForInterfaceDef{}
 	for i, k := range keys {
 		switch state[i] {
@@ -807,4 +816,20 @@ func (iFamily) newSSet(kind int, keys []int, state []int, elems [][]int) sset {
 		}
 	}
 	return iSSet{fpgo.StreamSetForInterfaceFromMap(m)}
+}
+
+func poisonCalls() {
+	bad := []interface{}{0, 1, 2, 3, 4, 5, 6, nil, []int{1}}
+	for _, f := range []func(){
+		func() { fpgo.StreamForInterface.FromArray(bad).Distinct() },
+		func() { fpgo.DistinctForInterface(bad...) },
+		func() { fpgo.StreamForInterface.FromArray(bad).Intersection(fpgo.StreamForInterface.FromArray(bad)) },
+		func() { fpgo.StreamForInterface.FromArray(bad).Minus(fpgo.StreamForInterface.FromArray(bad)) },
+		func() { fpgo.SetForInterfaceFromArray(bad) },
+	} {
+		func() {
+			defer func() { _ = recover() }()
+			f()
+		}()
+	}
 }
